@@ -191,6 +191,23 @@ func checkC01(P *Program, r *Result, tier string) {
 	checkC04(P, r, tier)
 	e4 := r.Explanation
 	checkC05(P, r, tier)
+	// a decoded string/binary stays what it was: it shares no memory with the reader's buffer (the C16 rule)
+	{
+		tmp := newResult(r.Prop)
+		checkC16(P, tmp, tier)
+		r.Fatal = append(r.Fatal, tmp.Fatal...)
+		n := 0
+		for _, o := range tmp.Obls {
+			if strings.HasSuffix(o.Rule, "/COPIES") && (strings.Contains(o.Func, "ReadBinary") || strings.Contains(o.Func, "ReadString")) {
+				o.Rule = r.Prop + "/VALUE-STABLE"
+				r.Obls = append(r.Obls, o)
+				n++
+			}
+		}
+		if n < 4 {
+			r.fatal("expected the aliasing obligations of ReadBinary/ReadString, found %d", n)
+		}
+	}
 	r.Explanation = expl + " STREAM (the stream reader/writer deliver or emit exactly the bytes requested, in order, under any fragmentation: the bufiox rules of C04 and C05 are re-checked here) — " + e4 + " — " + r.Explanation
 	r.assume("int is 64 bits wide (sign/zero extension of 32-bit wire sizes is compared at that width)")
 	r.assume("the in-place writers are given a buffer with room for the advertised length (copy() then copies len(v) bytes); the stream reader/writer halves rest on the bufiox rules (C04/C05) that are re-run as part of this check")
@@ -201,6 +218,25 @@ func checkC12(P *Program, r *Result, tier string) {
 	r.Explanation = "LAYOUT (the three MessageBegin writers, MessageBeginLength and the two readers agree with the strict-version envelope: word0 = 0x80010000 | type (16 bits), BE32 name length, name, BE32 seq; both readers accept iff word0 & 0xffff0000 == 0x80010000 and return all 16 type bits), " +
 		"VERSION (the failing side of that test returns the BAD_VERSION exception value before anything else is decoded), EXC-BRANCH (UnmarshalFastMsg decodes an EXCEPTION-typed message into a fresh ApplicationException and returns it as the error, never touching the caller's struct; otherwise it decodes the payload at the header's length; MarshalFastMsg writes header then payload at the returned offset into a buffer of exactly MessageBeginLength + BLength bytes), ACCESSORS (TypeId/TypeID/Msg return the decoded fields)."
 	layoutRules(P, r, []string{"MessageBegin"})
+	// the exception that travels in an EXCEPTION message keeps its type id and text: the struct rules of C11
+	// for ApplicationException (declaration, writer and reader agree field by field; BLength = bytes written)
+	{
+		tmp := newResult(r.Prop)
+		checkC11(P, tmp, tier)
+		r.Fatal = append(r.Fatal, tmp.Fatal...)
+		n := 0
+		for _, o := range tmp.Obls {
+			if strings.Contains(o.Func, "ApplicationException") {
+				o.Rule = r.Prop + "/EXC-FIELDS"
+				r.Obls = append(r.Obls, o)
+				r.Funcs[o.Func] = true
+				n++
+			}
+		}
+		if n < 4 {
+			r.fatal("expected the field obligations of ApplicationException, found %d", n)
+		}
+	}
 	// ---- VERSION ----
 	for _, t := range []struct{ typ, name string }{{"BinaryProtocol", "ReadMessageBegin"}, {"BufferReader", "ReadMessageBegin"}} {
 		fn := P.Method(relThrift, t.typ, t.name)
